@@ -70,6 +70,7 @@ ShapeDef(i) ==
                   @@ A("S1", 1, 5) :> [c |-> "const", v |-> Bool(TRUE)]
                   @@ A("S1", 1, 6) :> [c |-> "const", v |-> DateT(43890, 1, 2)]
                   @@ A("S1", 1, 7) :> [c |-> "const", v |-> Rat(5, 2)]
+                  @@ A("S1", 1, 8) :> [c |-> "const", v |-> [t |-> "float", v |-> "9007199254740993"]]   \* a whole number no double holds
                   @@ A("S1", 1, 9) :> [c |-> "const", v |-> Txt(<<>>)]          \* an empty text that no range covers
                   @@ A("S1", 1, 10) :> [c |-> "const", v |-> DateT(43890, 1, 8192)]  \* 00:00:10.546875 - microseconds that are no whole milliseconds
                   @@ A("S 2", 1, 1) :> Kc(1)
@@ -79,6 +80,7 @@ ShapeDef(i) ==
                   @@ A("S1", 2, 4) :> Fm(Bin("+", CallN("SUM", <<Rng("", 1, 1, 1, 1), Ref("S 2", 1, 1, FALSE, FALSE)>>), NameRef("Rate")))
                   @@ A("S1", 2, 5) :> Fm(CallN("SUM", <<Rng("", 1, 1, 1, 1), ErrLit("#N/A")>>))
                   @@ A("S1", 2, 6) :> Fm(CallN("MAX", <<ErrLit("#REF!"), Rng("", 1, 1, 1, 1)>>))
+                  @@ A("S1", 2, 7) :> Fm(Bin("+", RelRef(1, 8), N1))          \* ... and a computed one
                   @@ A("S 2", 2, 1) :> Fm(Bin("*", RelRef(1, 1), Ref("S1", 1, 7, TRUE, TRUE))) ),
          names |-> ("Rate" :> Ref("S1", 1, 1, TRUE, TRUE)), inputs |-> {A("S1", 1, 1), A("S 2", 1, 1)}]
     [] i = "twin" ->         \* the SAME formula text, with unqualified references, on two sheets holding different data
@@ -348,7 +350,8 @@ Extract(fc, fn) == \* fc: focused cells, fn: focused names
 
 Next == \/ Persist
         \/ PersistMid
-        \/ \E fc \in SUBSET Cells, fn \in SUBSET CellNames : Extract(fc, fn)
+        \* (the guard stands outside the quantifier: TLC would otherwise run through all 2^|Cells| subsets in every state)
+        \/ "extract" \in Ops /\ ~Closed /\ \E fc \in SUBSET Cells, fn \in SUBSET CellNames : Extract(fc, fn)
         \/ "set" \in Ops /\ \E a \in Inputs, i \in 1..Len(SetVals) : Set(a, SetVals[i])
         \/ "setname" \in Ops /\ \E nm \in Names, i \in 1..Len(SetVals) : SetByName(nm, SetVals[i])
         \/ "evaluate" \in Ops /\ \E e \in 1..NEval, c \in Cells : Evaluate(e, c)
